@@ -108,6 +108,19 @@ func genReap(r *rand.Rand, i int) *Program {
 	if r.Intn(3) == 0 {
 		p.Threads = append(p.Threads, []Op{{Op: "yield"}, {Op: "yield"}, {Op: "add", K: 50}, {Op: "counts"}})
 	}
+	if r.Intn(4) == 0 {
+		// the reaper is parked in the middle of a pass (after taking its snapshot of the idle list) across a
+		// Stop and a Restart, and released when everybody else is at rest: a pass that outlives its run
+		p.Conc = 2 + r.Intn(2)
+		p.MinIdle = 0
+		p.MaxTicks = 2 + r.Intn(2)
+		p.Hold = "worker.goRemoveIdleWorkers$1 ticker|ret:NodeSlice"
+		g2 := &gen{r: r}
+		t := g2.adds(p.Conc)
+		t = append(t, Op{Op: "wuf"}, Op{Op: "advance", N: 5000}, Op{Op: "ticks"}, Op{Op: "yield"}, Op{Op: "yield"}, Op{Op: "stop"}, Op{Op: "restart"}, Op{Op: "counts"}, Op{Op: "waitidle"}, Op{Op: "counts"})
+		p.Threads = [][]Op{t}
+		return p
+	}
 	if r.Intn(3) == 0 {
 		// the limit is tuned after the pool has grown, then time passes at rest: the reaper has to trim to
 		// the minimum of the NEW limit (non-default ratio, enough ticks at rest)
